@@ -111,17 +111,15 @@ PROPS = {
     "C01": {
         "engines": [("c01", "main")],
         "lean": ["PgsVerif.Props.C01"],
-        "category": "exploration",
         "rule": "curated worlds (Struct/Value/ListValue shape, packageless files, map entry between nested messages, extension-only import, public re-export) + seeded random protodesc-valid worlds (1-5 files, DAG imports with public re-exports, shared/nested/empty packages, proto2 omitted/spelled and proto3, nesting depth <= 4, map entries interleaved among nested types, real and synthetic oneofs, extensions at file and message scope, services, any target subset incl. shuffled order, FileDescriptorSet entry point, bidirectional mode); the real AST is navigated from Packages()/Targets() through every containment accessor, every entity identified by the pointer of the descriptor it exposes; non-trivial = at least one message",
-        "level_text": "THEOREMS PENDING (level exploration until proved): executable Lean model of ast.go's hydration (index timeline, every mustSeen at its moment) + declared containment image; Phi_C01 (no failure, targets, packages, exactly-once reachability, every listing = declared children in order, all-listings as multisets) evaluated on every navigated AST.",
+        "level_text": "Lean theorems over the executable model of ast.go's hydration (index timeline: every mustSeen looked up against the index as it is at that moment): C01_no_failure (Valid w -> hydrate w succeeds and the index holds exactly the declarations of the request; proved by induction over the files with the invariant 'index = reversed declarations of the files processed so far', services/methods/field types/map entries/extensions each resolved at their moment), validB_sound (the decidable hypothesis evaluated on every generated request implies Valid), C01_nav_not_failed. The declaration-order listings of the navigation model are read off containment by definition; Phi_C01 (no failure, targets, packages, exactly-once reachability, every listing = declared children in order, all-listings as multisets) is evaluated on every navigated real AST and the model must equal the implementation on every case.",
         "level_note": "Trusted: protodesc.NewFiles defines 'valid request' (every generated world must pass it); descriptor pointer identity as entity identity.",
     },
     "C02": {
         "engines": [("c02", "main")],
         "lean": ["PgsVerif.Props.C02"],
-        "category": "exploration",
         "rule": "curated worlds + seeded random protodesc-valid worlds (see C01: 1-5 files, import DAGs with public re-exports and unused imports, shared/nested/empty packages, both proto2 spellings and proto3, nesting depth <= 4, map entries interleaved among nested types, real/synthetic oneofs, all scalar kinds x labels x map keys, enum/message references to same file / direct imports / publicly re-exported files, recursion, extensions at file and message scope, services, SourceCodeInfo); observed: per entity: FullyQualifiedName, Lookup(key) identity, kind-specific container accessor, File(), Package(), Syntax(), BuildTarget(); Lookup of up to 60 perturbed names (dropped dot, suffix, truncated, nested name at file scope, protobuf-style sibling-scoped enum value names, package names); non-trivial = world with at least one message (C04: at least 2 files)",
-        "level_text": "THEOREMS PENDING (level exploration until proved): executable Lean model of ast.go's hydration and of the accessors compared with the real AST on every generated world; Phi_C02: fqn = container fqn + '.' + name (file: '.'+package or empty), Lookup(key) = the entity, container/file/package/syntax/build-target links = containment, undeclared names not found - evaluated on every observed AST.",
+        "level_text": "Lean theorems (Props/C02, on top of C01's timeline invariant): C02_lookup (for every Valid request: lookup of the key of any declared entity returns that declaration; any key no descriptor declares is not found), lifted to the compared observation: C02_not_failed, C02_lookup_self, C02_all_present, C02_probe_absent, C02_probe_present. Container/file/package/syntax/build-target columns of the model are read off containment by definition and tied to the code by the correspondence check; Phi_C02 (fqn = container fqn + '.' + name, links = containment, undeclared names not found) is evaluated on every observed real AST.",
         "level_note": "Trusted: protodesc.NewFiles defines 'valid request'; descriptor pointer identity as entity identity; protoreflect (protobuf-go v1.23.0) as the reference for 'protobuf's own semantics'.",
     },
     "C03": {
